@@ -309,6 +309,13 @@ func exploreConc(cs *ConcScenario, bound int, deadline time.Time) *c08res {
 		for _, bad := range cs.dupCheck(co.app) {
 			r.Viols = append(r.Viols, Violation{Key: strings.SplitN(bad, "|", 2)[0], What: fmt.Sprintf("scenario %s: %s", cs.Name, bad), Replay: rep()})
 		}
+		// what one request must never do stays true whatever runs next to it: a Block is not delivered
+		for _, d := range co.app.Deliveries {
+			var pm map[string]interface{}
+			if json.Unmarshal(d.Payload, &pm) == nil && pm["type"] == "Block" {
+				r.Viols = append(r.Viols, Violation{Key: "block-delivered-under-concurrency", What: fmt.Sprintf("scenario %s: a Block was handed to the transport (recipients %v); schedule %v", cs.Name, d.To, co.sched.Trace), Replay: rep()})
+			}
+		}
 		if r.Sample == nil && len(x.Choices()) > 0 && len(co.sched.Trace) > 6 {
 			r.Sample = M{"scenario": cs.Name, "schedule": co.sched.Trace}
 		}
